@@ -44,7 +44,10 @@ CHECKS = {
     "C16": {"pkg": "cmd/benchstat", "sweep": ["cmd/benchstat"]},
     "C17": {"pkg": "benchstat", "sweep": ["benchstat"]},
     "C18": {"pkg": "benchseries"},
-    "C19": {"pkg": "storage/app", "pkgs": ["storage/app", "analysis/app"]},
+    "C19": {"pkg": "storage/app", "pkgs": ["storage/app", "analysis/app", "storage/db"],
+            # a further binary of the harness in storage/db, built from storage/db and storage/query rewritten by the
+            # instrumenter (range-over-map -> verifmc.MapKeys): the explorer decides every map iteration order
+            "maporder": {"instr": ["storage/db", "storage/query"], "pkg": "storage/db"}},
     "C20": {"pkg": "storage/app", "pkgs": ["storage/app", "storage/db"], "race_pkg": "storage/db"},
 }
 
@@ -82,7 +85,7 @@ def overlay_for(cid, extra=None, pkg=None):
     return repl
 
 
-def build(cid, race=False, extra_overlay=None, suffix="", pkg=None):
+def build(cid, race=False, extra_overlay=None, suffix="", pkg=None, tags="verif"):
     cfg = dict(CHECKS[cid])
     if pkg:
         cfg["pkg"] = pkg
@@ -92,7 +95,7 @@ def build(cid, race=False, extra_overlay=None, suffix="", pkg=None):
     with open(ov, "w") as fh:
         json.dump({"Replace": overlay_for(cid, extra_overlay, pkg)}, fh, indent=1)
     out = os.path.join(bdir, f"{cid}{suffix}.test")
-    cmd = ["go", "test", "-c", "-overlay", ov, "-tags", "verif", "-vet=off", "-o", out]
+    cmd = ["go", "test", "-c", "-overlay", ov, "-tags", tags, "-vet=off", "-o", out]
     if race:
         cmd.append("-race")
     if cfg.get("ldflags"):
@@ -166,6 +169,8 @@ def run_multi(cid, tier, replay, t0):
             continue
         rcs.append(rc)
     if replay:
+        if CHECKS[cid].get("maporder"):
+            return maporder_pass(cid, tier, replay, scratch, t0)
         return 2
     rp = CHECKS[cid].get("race_pkg")
     if rp:
@@ -192,12 +197,51 @@ def run_multi(cid, tier, replay, t0):
         rcs.append(rc)
     for j, sp in enumerate(CHECKS[cid].get("sweep") or []):
         rcs.append(race_sweep(cid, tier, sp, j, scratch, t0))
+    if CHECKS[cid].get("maporder"):
+        rcs.append(maporder_pass(cid, tier, None, scratch, t0))
     merge_parts(cid, tier, scratch, time.time() - t0)
     if any(rc == 1 for rc in rcs):
         return 1
     if all(rc == 0 for rc in rcs):
         return 0
     return 2
+
+
+def maporder_pass(cid, tier, replay, scratch, t0):
+    """The harness of one package once more, built from packages rewritten by the instrumenter so that the explorer
+    chooses the order in which every map is iterated (build tags verif,verifsched)."""
+    mo = CHECKS[cid]["maporder"]
+    env = goenv()
+    bdir = os.path.join(OUT, ".build")
+    os.makedirs(bdir, exist_ok=True)
+    instr = os.path.join(bdir, "verifinstr")
+    p = subprocess.run(["go", "build", "-o", instr, "."], cwd=os.path.join(VERIF, "instr"), env=env,
+                       stdout=subprocess.PIPE, stderr=subprocess.STDOUT, text=True)
+    if p.returncode != 0:
+        print(p.stdout)
+        print("HARNESS-ERROR: cannot build the instrumenter")
+        return 2
+    idir = os.path.join(bdir, cid + "-instr")
+    subprocess.run(["rm", "-rf", idir])
+    p = subprocess.run([instr, "-repo", REPO, "-out", idir] + mo["instr"], env=env, stdout=subprocess.PIPE, stderr=subprocess.PIPE, text=True)
+    if p.returncode == 3:
+        print(f"[run.py] {cid}: the instrumenter refuses ({p.stderr.strip()}); map iteration orders are not explored")
+        return 0
+    if p.returncode != 0:
+        print(p.stdout, p.stderr)
+        print("HARNESS-ERROR: instrumenter failed (the working tree may not compile)")
+        return 2
+    res = json.loads(p.stdout)
+    print(f"[run.py] {cid} instrumented:", res["stats"])
+    binp, bt = build(cid, extra_overlay=res["overlay"], suffix="-maporder", pkg=mo["pkg"], tags="verif,verifsched")
+    e = goenv()
+    e.update({"VERIF_TIER": tier, "VERIF_ROOT": OUT, "VERIF_KNOWN": os.path.join(VERIF, "known_findings.json"),
+              "VERIF_EVIDENCE": os.path.join(scratch, "part-maporder.json"), "VERIF_REPO": REPO, "VERIF_PART": "maporder",
+              "VERIF_KEEP_REPLAYS": "1", "VERIF_MAPORDER": "1"})
+    e.setdefault("VERIF_SEED", "0")
+    if replay:
+        e["VERIF_REPLAY"] = os.path.abspath(replay)
+    return run_binary(cid, binp, e, t0, bt)
 
 
 def race_sweep(cid, tier, pkg, j, scratch, t0):
